@@ -1,5 +1,7 @@
 import BSVerif.Driver.Utf
 import BSVerif.Driver.UtfStream
+import BSVerif.Driver.BinStream
+import BSVerif.Driver.Scope
 
 namespace BSVerif.Driver
 
@@ -9,6 +11,8 @@ def dispatch (toks : List String) (impl : Option String) : Option (String × Str
   | t :: _ =>
     if t == "utf.detect" || t == "utf.read" || t == "utf.write" then UtfStream.handle toks impl
     else if t.startsWith "utf." then Utf.handle toks impl
+    else if t.startsWith "bs." then BinStream.handle toks impl
+    else if t == "mp.scope" then Scope.handle toks impl
     else none
 
 end BSVerif.Driver
